@@ -163,6 +163,7 @@ def _random_body(ch: core.Chooser, depth: int, budget_: List[int]) -> List[dict]
             (5 if depth < 4 else 0, "block"), (4, "set"), (2, "set_invalid"), (2, "enter_invalid"), (1, "set_badvalue"), (2, "get_mutate"),
             (2 if depth else 0, "raise"), (3, "op"), (2 if depth else 0, "op_fault"), (3 if depth < 4 else 0, "catch"),
             (1 if depth else 0, "leave"), (2 if depth < 4 else 0, "genblock"), (1 if depth < 4 else 0, "decorated"),
+            (1 if depth < 4 else 0, "reuse"),
         ])
         if kind == "block":
             node = {"k": "block", "kw": _kw(c.sub("kw"), 0, 3), "body": _random_body(c.sub("b"), depth + 1, budget_)}
@@ -192,6 +193,9 @@ def _random_body(ch: core.Chooser, depth: int, budget_: List[int]) -> List[dict]
         elif kind == "genblock":
             body.append({"k": "genblock", "kw": _kw(c.sub("kw"), 0, 3), "body": _random_body(c.sub("b"), depth + 1, budget_),
                          "end": c.choice(["close", "throw", "exhaust"]), "exc": c.choice(EXC_NAMES)})
+        elif kind == "reuse":
+            body.append({"k": "reuse", "kw": _kw(c.sub("kw"), 1, 3), "mode": c.choice(["nested", "sequential", "recursive"]),
+                         "inner": [_kw(c.sub("in", j), 1, 2) for j in range(c.between(2, 3))]})
         elif kind == "decorated":
             node = {"k": "decorated", "kw": _kw(c.sub("kw"), 0, 3), "body": _random_body(c.sub("b"), depth + 1, budget_)}
             if c.chance(0.4):
@@ -219,7 +223,11 @@ def generate(rs: int, tier: str, index: int) -> dict:
         origin = {"random": True}
     _number(steps, [0])
     start = _kw(ch.sub("start"), 1, 4) if ch.chance(0.3) else {}
-    return {"property": ID, "run_seed": rs, "tier": tier, "origin": origin, "options_at_start": start, "steps": steps}
+    plan = {"property": ID, "run_seed": rs, "tier": tier, "origin": origin, "options_at_start": start, "steps": steps}
+    if ch.sub("warn").chance(0.2):
+        # process-wide setting (python -W error): every warning is an exception at the point where it is issued
+        plan["warnings"] = "error"
+    return plan
 
 
 # ---------------------------------------------------------------------------
@@ -392,6 +400,8 @@ class Interp:
             return self._genblock(node)
         if k == "decorated":
             return self._decorated(node)
+        if k == "reuse":
+            return self._reuse(node)
         raise core.HarnessError(f"unknown node kind {k}")
 
     def _sync_if_bad(self) -> None:
@@ -517,6 +527,90 @@ class Interp:
                 self._sync_if_bad()
         return None
 
+    def _reuse(self, node: dict) -> Optional[str]:
+        """One manager object (or one decorated function) used more than once: while it is still active
+        (nested / recursive) or again afterwards.  Whether a second entry of the same object is accepted is not
+        the property's business; what it restores on each exit is."""
+        nid = node.get("id")
+        kw, inner, mode = node["kw"], node["inner"], node["mode"]
+        self.nontrivial = True
+        self.bump(f"probe:reuse_{mode}")
+        np_ = self.np
+        snapshot = dict(self.model)
+
+        def set_(options: dict) -> None:
+            np_.set_options(**options)
+            self.model.update(options)
+
+        if mode == "recursive":
+            @np_.global_options(**kw)
+            def rec(d: int) -> None:
+                self.model.update(kw)
+                self.check(nid, "after-recursive-enter", "global_options")
+                set_(inner[d])
+                if d + 1 < len(inner):
+                    snap = dict(self.model)
+                    try:
+                        rec(d + 1)
+                    finally:
+                        self.model = snap
+                        self.check(nid, "after-recursive-inner-exit", "global_options")
+                        self._sync_if_bad()
+
+            try:
+                rec(0)
+            finally:
+                self.model = snapshot
+                self.check(nid, "after-recursive-exit", "global_options")
+                self._sync_if_bad()
+            return None
+        manager = np_.global_options(**kw)
+        try:
+            with manager:
+                self.model.update(kw)
+                self.check(nid, "after-enter", "global_options")
+                set_(inner[0])
+                if mode == "nested":
+                    snap = dict(self.model)
+                    entered = False
+                    try:
+                        with manager:
+                            entered = True
+                            self.model.update(kw)
+                            self.check(nid, "after-reenter", "global_options")
+                            set_(inner[1])
+                    except BaseException as exc:  # noqa: BLE001
+                        if isinstance(exc, (core.HarnessError, core.SimInterrupt)):
+                            raise
+                        self.bump("probe:reentry_refused" if not entered else "probe:reentry_raised")
+                    finally:
+                        self.model = snap
+                        self.check(nid, "after-reentry-exit", "global_options")
+                        self._sync_if_bad()
+        finally:
+            self.model = snapshot
+            self.check(nid, "after-exit", "global_options")
+            self._sync_if_bad()
+        if mode == "sequential":
+            set_(inner[1])
+            snap = dict(self.model)
+            entered = False
+            try:
+                with manager:
+                    entered = True
+                    self.model.update(kw)
+                    self.check(nid, "after-second-enter", "global_options")
+                    set_(inner[0])
+            except BaseException as exc:  # noqa: BLE001
+                if isinstance(exc, (core.HarnessError, core.SimInterrupt)):
+                    raise
+                self.bump("probe:reentry_refused" if not entered else "probe:reentry_raised")
+            finally:
+                self.model = snap
+                self.check(nid, "after-second-exit", "global_options")
+                self._sync_if_bad()
+        return None
+
     def _get_mutate(self, node: dict) -> Optional[str]:
         nid = node.get("id")
         which = node["which"]
@@ -632,13 +726,21 @@ def execute(plan: dict) -> dict:
                 interp.model.update(plan["options_at_start"])
             interp.check("start", "start", "set_options")
             interp._yielded = None
-            try:
-                interp.run_body(plan["steps"])
-            except BaseException as exc:  # noqa: BLE001  (top level: everything is caught here)
-                if isinstance(exc, core.HarnessError):
-                    raise
-                interp.events.append(["top-caught", type(exc).__name__])
-                interp.history.append(f"top:{type(exc).__name__}")
+            import warnings
+
+            with warnings.catch_warnings():
+                if plan.get("warnings") == "error":
+                    warnings.simplefilter("error")
+                    interp.bump("fault:warnings_as_errors.configured")
+                try:
+                    interp.run_body(plan["steps"])
+                except BaseException as exc:  # noqa: BLE001  (top level: everything is caught here)
+                    if isinstance(exc, core.HarnessError):
+                        raise
+                    if isinstance(exc, Warning):
+                        interp.bump("fault:warnings_as_errors.fired")
+                    interp.events.append(["top-caught", type(exc).__name__])
+                    interp.history.append(f"top:{type(exc).__name__}")
             interp.check("end", "end", "global_options")
         finally:
             interp.stats.update({k: interp.stats.get(k, 0) + v for k, v in env.counters.items()})
@@ -696,6 +798,8 @@ def simplify(plan: dict):
     steps = plan["steps"]
     if plan.get("options_at_start"):
         yield dict(plan, options_at_start={})
+    if plan.get("warnings"):
+        yield {k: v for k, v in plan.items() if k != "warnings"}
     for path, node in list(_walk(steps)):
         # delete the node
         yield dict(plan, steps=_replace(steps, path, []))
